@@ -245,6 +245,16 @@ func (c *evalCtx) eval(x Expr) EV {
 				pats = triggerTerms(body, bv)
 			}
 		}
+		if len(pats) == 0 {
+			// every candidate trigger contains an ite or a connective (array or offset terms merged over paths): name
+			// those subterms by fresh constants (definitional equalities) and quantify over the absolute index of each
+			// array read, one copy of the fact per read
+			if vs := c.namedTriggerVariants(body, bv, n.Var); len(vs) > 0 {
+				if n.Forall {
+					return boolEV(cx.And(vs...))
+				}
+			}
+		}
 		if n.Forall {
 			return boolEV(cx.ForallPat([]*smt.Term{bv}, body, pats...))
 		}
@@ -749,6 +759,16 @@ func (c *evalCtx) index(n *EIndex) EV {
 		}
 		v, _ := e.mapGet(c.st, x.V, key.V.Terms[0])
 		return EV{V: v}
+	case *types.Basic:
+		if u.Info()&types.IsString != 0 {
+			var idx *smt.Term
+			if i.Lit != nil {
+				idx = cx.BVLit(i.Lit, 64)
+			} else {
+				idx = cx.Extend(i.V.Terms[0], 64, i.Math || isSigned(i.V.Typ))
+			}
+			return EV{V: Val{Typ: types.Typ[types.Uint8], Terms: []*smt.Term{cx.Select(cx.App("gs.bytes", bytesInner, x.V.Terms[0]), idx)}}}
+		}
 	}
 	c.fail("index on %v", x.V.Typ)
 	return EV{}
@@ -823,11 +843,49 @@ func (c *evalCtx) callExpr(n *ECall) EV {
 		case "written":
 			a := c.eval(n.Args[0])
 			return EV{V: Val{Typ: types.Typ[types.Int], Terms: []*smt.Term{e.ghostGet(c.st, gCount, streamKey(a.V))}}}
+		case "chanlen", "chancap", "chanclosed", "chanhas", "chancount": // sequential channel model (chan.go)
+			a := c.eval(n.Args[0])
+			ci, ok := e.chanInfoOf(a.V.Typ)
+			if !ok {
+				c.fail("%s: not a modelled channel type", id.Name)
+			}
+			cnt, ln, cp, cls := e.chanArrs(c.st, ci)
+			ref := a.V.Terms[0]
+			switch id.Name {
+			case "chanlen":
+				e.chanValid(c.st, ci, ref)
+				return EV{V: Val{Typ: types.Typ[types.Int], Terms: []*smt.Term{cx.Select(ln, ref)}}}
+			case "chancap":
+				e.chanValid(c.st, ci, ref)
+				return EV{V: Val{Typ: types.Typ[types.Int], Terms: []*smt.Term{cx.Select(cp, ref)}}}
+			case "chanclosed":
+				return boolEV(cx.Select(cls, ref))
+			}
+			x := c.eval(n.Args[1])
+			if x.Lit != nil {
+				x = c.litTo(x.Lit, ci.elem, false)
+			}
+			if id.Name == "chancount" {
+				return EV{V: Val{Typ: types.Typ[types.Int], Terms: []*smt.Term{cx.Select(cx.Select(cnt, ref), x.V.Terms[0])}}}
+			}
+			return boolEV(cx.Op("bvsgt", smt.Bool, cx.Select(cx.Select(cnt, ref), x.V.Terms[0]), cx.BVLit64(0, 64)))
+		case "inmemory": // inmemory(x): x's dynamic type is *bytes.Buffer or *bytes.Reader (reads of available bytes and writes cannot fail)
+			a := c.eval(n.Args[0])
+			if !isInterface(a.V.Typ) {
+				ts := typeStr(a.V.Typ)
+				if ts == "*bytes.Buffer" || ts == "*bytes.Reader" {
+					return boolEV(cx.True())
+				}
+				return boolEV(cx.False())
+			}
+			return boolEV(cx.Or(cx.Eq(a.V.Terms[0], cx.IntLit(int64(e.typeTag(bytesPtrType(e, "Buffer"))))), cx.Eq(a.V.Terms[0], cx.IntLit(int64(e.typeTag(bytesPtrType(e, "Reader")))))))
 		case "pos":
 			a := c.eval(n.Args[0])
+			e.readerState(c.st, streamKey(a.V)) // stream invariant: 0 <= pos <= avail <= size bound
 			return EV{V: Val{Typ: types.Typ[types.Int], Terms: []*smt.Term{e.ghostGet(c.st, gPos, streamKey(a.V))}}}
 		case "avail":
 			a := c.eval(n.Args[0])
+			e.readerState(c.st, streamKey(a.V))
 			return EV{V: Val{Typ: types.Typ[types.Int], Terms: []*smt.Term{e.ghostGet(c.st, pAvail, streamKey(a.V))}}}
 		case "wbyte": // wbyte(w, off): byte written at absolute offset off
 			a := c.eval(n.Args[0])
@@ -1235,12 +1293,97 @@ func triggerTerms(body, bv *smt.Term) []*smt.Term {
 	return out
 }
 
+// namedTriggerVariants: see the call site.
+func (c *evalCtx) namedTriggerVariants(body, bv *smt.Term, vname string) []*smt.Term {
+	e := c.e
+	cx := e.C
+	// innermost selects whose index mentions bv and whose array does not
+	var cands []*smt.Term
+	seen := map[int]bool{}
+	var walk func(t *smt.Term)
+	walk = func(t *smt.Term) {
+		if seen[t.ID()] || !termHas(t, bv) {
+			return
+		}
+		seen[t.ID()] = true
+		if t.Op == "select" && len(t.Args) == 2 && !termHas(t.Args[0], bv) && termHas(t.Args[1], bv) {
+			cands = append(cands, t)
+			return
+		}
+		for _, a := range t.Args {
+			walk(a)
+		}
+	}
+	walk(body)
+	if len(cands) == 0 || len(cands) > 3 {
+		return nil
+	}
+	var unclean func(x *smt.Term) bool
+	unclean = func(x *smt.Term) bool {
+		switch x.Op {
+		case "ite", "and", "or", "not", "=>", "=":
+			return true
+		}
+		for _, a := range x.Args {
+			if unclean(a) {
+				return true
+			}
+		}
+		return false
+	}
+	name := func(t *smt.Term, hint string) *smt.Term {
+		if !unclean(t) {
+			return t
+		}
+		k := cx.Fresh(hint, t.Sort)
+		e.assumeGlobal(cx.Eq(k, t))
+		return k
+	}
+	var out []*smt.Term
+	for _, sel := range cands {
+		arr, idx := sel.Args[0], sel.Args[1]
+		b2 := body
+		A := name(arr, "q.arr")
+		var base *smt.Term
+		switch {
+		case idx == bv:
+		case idx.Op == "bvadd" && len(idx.Args) == 2 && idx.Args[1] == bv && !termHas(idx.Args[0], bv):
+			base = idx.Args[0]
+		case idx.Op == "bvadd" && len(idx.Args) == 2 && idx.Args[0] == bv && !termHas(idx.Args[1], bv):
+			base = idx.Args[1]
+		default:
+			continue
+		}
+		if base == nil {
+			b2 = cx.Subst(b2, sel, cx.Select(A, bv))
+			out = append(out, cx.ForallPat([]*smt.Term{bv}, b2, cx.Select(A, bv)))
+			continue
+		}
+		B := name(base, "q.base")
+		j := cx.BoundVar(vname+".abs", bv.Sort)
+		b2 = cx.Subst(b2, sel, cx.Select(A, j))
+		b2 = cx.Subst(b2, bv, cx.Op("bvsub", bv.Sort, j, B))
+		out = append(out, cx.ForallPat([]*smt.Term{j}, b2, cx.Select(A, j)))
+	}
+	return out
+}
+
 func termHas(t, v *smt.Term) bool {
+	return termHasMemo(t, v, map[int]bool{})
+}
+
+// terms are DAGs: without the memo the walk is exponential in the sharing depth
+func termHasMemo(t, v *smt.Term, memo map[int]bool) bool {
 	if t == v {
 		return true
 	}
+	if r, ok := memo[t.ID()]; ok {
+		return r
+	}
+	memo[t.ID()] = false
 	for _, a := range t.Args {
-		if termHas(a, v) {
+		if termHasMemo(a, v, memo) {
+			memo[t.ID()] = true
 			return true
 		}
 	}
